@@ -490,6 +490,7 @@ FRAME_CONFIGS = [
     lf(2, eadj=3, a=-3, s=2, mx=70000),               # encoder adjustment compensated by the decoder
     lf(1, o=1, s=0, mx=400, real=False), lf(2, o=3, s=5, mx=70000, real=False), lf(2, o=1, a=2, eadj=-2, s=1, mx=2000, real=False),
     lf(4, o=0, s=5, mx=70000, real=False),            # strip beyond the header
+    lf(8, a=2, eadj=-2, s=8, mx=1024, real=False),    # 8-byte field + positive adjustment: a field with the top bit set is negative
     {"kind": "varint", "max": 1024}, {"kind": "varint", "max": 70000}, {"kind": "varint", "max": 127},
     {"kind": "delim", "max": 1024, "dl": 1, "strip": True}, {"kind": "delim", "max": 1024, "dl": 2, "strip": False},
     {"kind": "delim", "max": 70000, "dl": 2, "strip": True},
@@ -747,7 +748,8 @@ def check_C17(cx):
         rb = 16 if 0 < rv < 16 else rv
         sizes = sorted(set([0, 1, 100] + [max(0, wv - 1), wv, wv + 1, 2 * wv + 1] + [max(1, rb - 1), rb, rb + 1]))
         tcases.append({"id": "tcp%d" % i, "kind": "wire", "w": wv, "r": rv, "side": ("connect", "accept")[(i // len(tvars)) % 2],
-                       "frags": [max(1, rb - 1), 1, 2 * rb + 3, 1, 50], "random": 14, "sizes": sizes, "seed": cx.rnd.randrange(1, 1 << 30), "_module": "tcp"})
+                       "frags": [max(1, rb - 1), 1, 2 * rb + 3, 1, 50], "random": 14 if i % 3 else 40, "sizes": sizes, "seed": cx.rnd.randrange(1, 1 << 30), "_module": "tcp",
+                       "duplex": i % 3 == 0})
     rs = run_driver(cx.driver, "tcp", tcases, cx.wd, tag="tcp")
     cx.absorb(rs, tcases)
     cx.extra_cov["real_tcp_runs"] = len(rs)
@@ -761,9 +763,9 @@ def check_C14(cx):
     cx.module = "carrier"
     cx.build()
     quick = cx.tier == "quick"
-    inv = ["C14_ReadFromExact", "C14_ByteReaderExact"]
+    inv = ["C14_ReadFromExact", "C14_ByteReaderExact", "C14_StealExact"]
     ns = [0, 1, 1023, 1024] if quick else [0, 1, 2, 1023, 1024]
-    consts = {"Ns": set(ns), "MaxItems": 3, "FixByteReader": TREE.get("FixByteReader", False)}
+    consts = {"Ns": set(ns), "MaxItems": 3, "FixByteReader": TREE.get("FixByteReader", False), "FixSteal": TREE.get("FixSteal", False)}
     res = generic_mc(cx, "MCcarrier", "Carrier", consts, inv, what="C14 ReadFrom / ByteReader over all reader scripts of <= 3 results from %s x {nil, EOF, error}" % ns)
     spec_violation = res["violated"]
     # every script of the bounded space on the real code (the space is small enough to run completely)
@@ -782,6 +784,10 @@ def check_C14(cx):
                 cases.append({"id": "rf%d%s" % (k, "a" if asyn else "s"), "op": "readfrom", "script": list(sc), "async": asyn, "seed": cx.rnd.randrange(1, 1 << 30)})
             if all(i["n"] <= 1 for i in sc):
                 cases.append({"id": "br%d" % k, "op": "bytereader", "script": list(sc), "seed": cx.rnd.randrange(1, 1 << 30)})
+            if all(i["err"] != "other" for i in sc):
+                for reused in (False, True):
+                    cases.append({"id": "st%d%s" % (k, "r" if reused else "o"), "op": "steal", "script": list(sc), "reused": reused, "via": ("steal", "tobytes")[k % 2],
+                                  "seed": cx.rnd.randrange(1, 1 << 30)})
     sizes = [0, 1, 1023, 1024, 1025, 2048, 4097, 65537]
     for kind in ("bytes", "vec", "buffer", "writerto", "reader", "strreader", "string", "int", "struct", "nil"):
         for sz in sizes:
@@ -798,8 +804,18 @@ def check_C14(cx):
         cases.append({"id": "helpers-%d" % sz, "op": "helpers", "size": sz, "seed": cx.rnd.randrange(1, 1 << 30)})
     rs = run_driver(cx.driver, "carrier", cases, cx.wd, tag="c")
     cx.absorb(rs, cases)
+    # reader / WriterTo / vector messages next to other traffic on one channel under the gate scheduler, with another
+    # user of the buffer pool scribbling over whatever is recycled: the carriers' bytes must arrive as they were
+    import chancheck as cc
+    from chanlib import cfg as ccfg, NZ_SIZES
+    before = len(cx.fails)
+    for name, c in [("c14rf", ccfg({"W1": cc.W("MR::3", "M"), "W2": cc.W("RF::3", "MV"), "W3": cc.W("MT::2", "MB")}, qsize=2, until=True, trackbufs=True)),
+                    ("c14rf8", ccfg({"W1": cc.W("MR::3", "RF::2"), "W2": cc.W("M", "MR::2")}, qsize=8, until=True, trackbufs=True))]:
+        cc.random_runs(cx, name, c, 30 if quick else 300, policies=("drain", "window", "uniform"), sizes=[1, 7, 100, 500, 1000, 1023, 1024])
+    for f, case, r in cx.fails[before:]:
+        case["_module"] = "chan"
     traced = [r for r in rs if r.get("events")]
-    tconsts = {"Ns": set(ns), "MaxItems": 3, "FixByteReader": TREE.get("FixByteReader", False)}
+    tconsts = {"Ns": set(ns), "MaxItems": 3, "FixByteReader": TREE.get("FixByteReader", False), "FixSteal": TREE.get("FixSteal", False)}
     for chunk in range(0, len(traced), 500):
         validate(cx, "TC%d" % chunk, "TraceCarrier", tconsts, traced[chunk:chunk + 500], [], {"op": "reset"})
     cx.edges_walked = len(rs)
@@ -814,6 +830,13 @@ def check_C14(cx):
         cx.selftests["unfixed_spec_violates"] = r0["violated"]
         if not r0["violated"]:
             raise Inconclusive("self-test failed: the unrepaired Carrier specification no longer violates C14")
+    if TREE.get("FixSteal"):
+        c0 = dict(consts)
+        c0["FixSteal"] = False
+        r0 = generic_mc(cx, "MCunfixedsteal", "Carrier", c0, ["C14_StealExact"], what="self-test: a stealer that keeps the first chunk of a buffer-reusing WriterTo must violate C14_StealExact")
+        cx.selftests["unfixed_steal_spec_violates"] = r0["violated"]
+        if not r0["violated"]:
+            raise Inconclusive("self-test failed: the unrepaired Carrier specification (FixSteal = FALSE) no longer violates C14_StealExact")
     cx.assume.append("byte equality of transmitted/converted content is the driver's comparison; TLC decides chunking, counts and errors")
     return finish(cx, rule="cases = every reader script of the bounded space (ReadFrom sync/async, ByteReader), every head-handler carrier type x size x channel mode, "
                             "conversion helpers over fragmenting readers; distinct_nontrivial = cases executed on the real code")
@@ -881,6 +904,10 @@ def check_C20(cx):
     for i in range(8):
         cases.append({"id": "persist%d" % i, "kind": ("read", "write")[i % 2], "tick_ms": 20, "d": 3, "free": True,
                       "steps": [{"op": "active"}] + [{"op": "tick"}] * 18, "panic": i % 4 == 3, "seed": 1})
+    # an IO whose handling fails behind the idle handler, then silence: idle events must keep coming
+    for i in range(8):
+        cases.append({"id": "persistpanic%d" % i, "kind": ("read", "write")[i % 2], "tick_ms": 20, "d": 3, "free": True,
+                      "steps": [{"op": "active"}] + [{"op": "tick"}] * (i % 3) + [{"op": "iopanic"}] + [{"op": "tick"}] * 18, "seed": 1})
     # inactive, then silence for four periods, with and without a downstream handler that fails in HandleInactive:
     # no timer may stay armed
     for i in range(8):
@@ -896,7 +923,10 @@ def check_C20(cx):
         raise
     cx.absorb(rs, cases)
     for r, c in zip(rs, cases):
-        if c["id"].startswith("persist") and r["delivered"] < 2 and r.get("jitter_ms", 0) < 15:
+        if c["id"].startswith("persistpanic") and r["delivered"] < 2 and r.get("jitter_ms", 0) < 15:
+            f = {"prop": "C20", "key": "not-redelivered-after-failed-io", "msg": "%s-idle handler, idle period 60ms: %d idle events in 360ms of silence after a %s whose handling failed behind the idle handler" % (c["kind"], r["delivered"], c["kind"]), "step": 0}
+            cx.fails.append((f, c, r))
+        elif c["id"].startswith("persist") and r["delivered"] < 2 and r.get("jitter_ms", 0) < 15:
             f = {"prop": "C20", "key": "not-redelivered", "msg": "%s-idle handler, idle period 60ms: %d idle events in 360ms of silence" % (c["kind"], r["delivered"]), "step": 0}
             cx.fails.append((f, c, r))
     if good:
